@@ -219,6 +219,10 @@ def explore_case(case, tier, seed, known_active):
                 sp = case.spec(I, O, err)
             except Unsupported:
                 raise
+            rng = getattr(path, 'int_range', None)
+            if rng and err is None:
+                # one obligation per recorded operation, in program order (the first one that can fail is the informative one)
+                sp = list(sp) + [('no-fixed-width-integer-overflow[%d]' % k, core.sb(c)) for k, c in enumerate(rng)]
             for label, c in sp:
                 c = cond_term(c)
                 res['obligations'] += 1
@@ -329,6 +333,19 @@ def check_one(case, ex, path, I, label, c, res, known_active, confirmed_known, t
                     if r2 == 'unsat':
                         res['discharged'] += 1
                         res['relaxed'] = res.get('relaxed', 0) + 1
+                        return
+        if r == 'unknown' and nassume and tries == 0:
+            # bug-finding fallback: a model of the INPUT assumptions and the negated claim alone (path decisions dropped).  Whatever path the
+            # real code takes on these inputs, the candidate is judged by the concrete replay below, so this can only add confirmed violations.
+            r3, m3 = ex.solver_check(path.pc[:nassume] + cs)
+            if r3 == 'sat':
+                Ic = concretize(I, m3)
+                if precondition_holds(path, nassume, I, Ic):
+                    failed, O, err = eval_concrete(case, Ic)
+                    if failed and not any(kid in known_active and pred_c(Ic) for kid, labels, pred_c, pred_s in case.known):
+                        rp = write_replay(case, Ic, failed, O, err)
+                        res['violations'].append({'label': label, 'failed': failed, 'replay': rp, 'inputs': jsonable(Ic),
+                                                  'observed': jsonable(O) if O is not None else repr(err)})
                         return
         if r == 'unknown':
             res['inconclusive'].append({'reason': 'solver-unknown', 'label': label})
